@@ -406,8 +406,8 @@ def r13e(ctx):
         ctx.report("R13e", f, f.node, "name assigned inside/before the scan", "the automatic name is not max+1 computed after the whole scan")
     # Document.get_styles(automatic=True) really covers both parts
     g = repo.func("Document.get_styles")
-    src = ast.unparse(g.node)
-    ok3 = "self.content.get_styles" in src and "self.styles.get_styles" in src and "automatic=automatic" in src
+    from ..shape import has
+    ok3 = has(g.node, "self.content.get_styles(family=F_) + self.styles.get_styles(family=F_, automatic=A_)")
     ctx.instance("R13e", f"{g.file}:{g.ident}", "Document.get_styles = content styles + styles.xml styles (automatic flag forwarded)", ok=ok3)
     if not ok3:
         ctx.report("R13e", g, g.node, "get_styles coverage", "Document.get_styles no longer unions content.xml and styles.xml")
